@@ -13,7 +13,7 @@ echo "|---|---|---|---|---|" >> $OUT
 for d in seeded/C*-*/; do
   id=$(basename $d); prop=${id%-*}
   checks=$(python3 -c "import json;m=json.load(open('$d/meta.json'));c=m['checks_run_with_change_applied_to_repo']['caught_by'];print(' '.join(dict.fromkeys(['$prop']+c)))")
-  git -C /repo apply $d/patch.diff || { echo "| $id | $prop | - | PATCH FAILED | |" >> $OUT; continue; }
+  git -C /repo apply /verif/${d}patch.diff || { echo "| $id | $prop | - | PATCH FAILED | |" >> $OUT; continue; }
   for c in $checks; do
     out=$(timeout 2400 ./vcheck $c $TIER 2>&1); rc=$?
     sigs=$(echo "$out" | grep -E "^  signature:" | sed 's/  signature: //' | sort -u | head -4 | tr '\n' ' ')
